@@ -402,10 +402,13 @@ class Intersection:
     def codegen(self):
         from .dependent import combine, generate_checking_code
 
-        template = " and ".join("{}" for t in self.types)
-        return combine(
-            template, [generate_checking_code(t) for t in self.types]
-        )
+        from .dependent import is_dependent
+
+        # Plain types first: the value-dependent members then only see
+        # values that are instances of the plain ones
+        types = sorted(self.types, key=is_dependent)
+        template = " and ".join("{}" for t in types)
+        return combine(template, [generate_checking_code(t) for t in types])
 
     def __type_order__(self, other):
         if other is Intersection:
